@@ -454,6 +454,8 @@ class QuantityTableCoordinate(BaseTableCoordinate):
         if len(new_array_grids) != ndim:
             raise ValueError(
                 f"A new array grid must be given for each array axis/table, i.e. {ndim}")
+        # The grids are documented as array-like: lists and tuples of positions are accepted too.
+        new_array_grids = tuple(np.asarray(new_grid) for new_grid in new_array_grids)
         if any(new_grid.shape != new_array_grids[0].shape for new_grid in new_array_grids):
             raise ValueError("New array grids must all be same shape.")
         # Build array grids for non-interpolated table.
@@ -676,6 +678,8 @@ class SkyCoordTableCoordinate(BaseTableCoordinate):
         shape = self.shape
         if len(new_array_grids) != ndim:
             raise ValueError(f"A new array grid must be given for each array axis, i.e. {ndim}")
+        # The grids are documented as array-like: lists and tuples of positions are accepted too.
+        new_array_grids = tuple(np.asarray(new_grid) for new_grid in new_array_grids)
         if any(new_grid.shape != new_array_grids[0].shape for new_grid in new_array_grids):
             raise ValueError("New array grids must all be same shape.")
         if mesh_output is None:
